@@ -307,7 +307,8 @@ def rule_urlre(c: Ctx) -> RuleResult:
                             "file/data; the data whitelist is start-anchored and admits only gif/png/jpeg/webp followed by ';'")
     vl = c.p.func("common/normalize_url.py:validateLink")
     m = vl.module
-    regs = {name: (pat, flags, node) for (mod, name, pat, flags, node) in c.p.regex_constants() if mod is m and name}
+    used = {x.id for x in ast.walk(vl.node) if isinstance(x, ast.Name)}
+    regs = {name: (pat, flags, node) for (mod, name, pat, flags, node) in c.p.regex_constants() if mod is m and name and name in used}
     bad = [n for n, (pat, fl, _) in regs.items() if re.compile(pat, fl).search("javascript:x")]
     good = [n for n, (pat, fl, _) in regs.items() if re.compile(pat, fl).search("data:image/png;x") and n not in bad]
     if len(bad) != 1 or len(good) != 1:
@@ -345,7 +346,27 @@ def rule_urlre(c: Ctx) -> RuleResult:
     prefix = all(not G.search(s) for s in ("data:,x", "data:text/html;base64,x", "data:application/javascript;x", "data:image/;"))
     r.add("good|prefix", where_g, good[0], "data:image/ prefix", "discharged" if prefix else "violation",
           "only data:image/<type>; passes" if prefix else "non-image data: urls pass the whitelist")
-    r.functions = 1
+    # the normaliser itself: whatever path is taken, what normalizeLink returns has been through mdurl.encode (percent-encoding
+    # of everything outside the URL-safe ASCII set) - an early `return url` fast path would hand raw characters to the sinks
+    nl = c.p.func("common/normalize_url.py:normalizeLink")
+    rd = c.reach(nl) if hasattr(c, "reach") else None
+    for n in own_nodes(nl.node):
+        if not isinstance(n, ast.Return):
+            continue
+        v = n.value
+        seen_names: set[str] = set()
+        while isinstance(v, ast.Name) and v.id not in seen_names:
+            seen_names.add(v.id)
+            defs = [x for x in own_nodes(nl.node) if isinstance(x, ast.Assign) and any(isinstance(t, ast.Name) and t.id == v.id for t in x.targets)]
+            if len(defs) != 1:
+                break
+            v = defs[0].value
+        ok = isinstance(v, ast.Call) and isinstance(v.func, ast.Attribute) and v.func.attr == "encode" and U(v.func.value).split(".")[-1] == "mdurl"
+        r.add(f"normalizeLink|return|{U(n)[:40]}", c.where(nl, n), nl.short, U(n)[:70], "discharged" if ok else "violation",
+              "the value returned is mdurl.encode(...) output" if ok else
+              "normalizeLink returns a value that has not been through mdurl.encode on this path: unencoded characters (blanks, line "
+              "breaks, non-ASCII) would reach href / src")
+    r.functions = 2
     r.floor = 8
     return r
 
